@@ -25,6 +25,7 @@ from ref.accessory import (T_ENC, T_ERROR, T_ID, T_METHOD, T_PK, T_SID, T_SIG, T
 from ref.tlv8 import ref_decode, ref_encode
 
 ACC_LTSK, CTRL_LTSK, OTHER_LTSK = 11, 12, 13
+ACC_LTSK2, CTRL_LTSK2 = 14, 15       # second pairing records of the record-sequence family
 ACC_EPH, CTRL_EPH, OTHER_CTRL_EPH, OTHER_ACC_EPH = 21, 22, 23, 24
 TRANSPORTS = ["ip", "ble", "coap"]
 
@@ -57,9 +58,13 @@ def fixed_x25519(sk: bytes):
 # ------------------------------------------------------------------ scenarios
 class Scn:
     def __init__(self, family, transport, cfg=0, acc=None, resume=None, m2=(), m4=(), honest=False, detail="",
-                 prior=False, real_eph=False):
+                 prior=False, real_eph=False, record=None, seq=None):
         self.family, self.transport, self.cfg = family, transport, cfg
         self.prior, self.real_eph = prior, real_eph or prior
+        # record: overrides of the pairing record handed to get_session_keys
+        #         (acc_id, ltsk = name whose public key is the stored AccessoryLTPK, ios_id, ios_ltsk)
+        # seq:    (sequence name, position): scenarios of one sequence run back to back in one process
+        self.record, self.seq = record or {}, seq
         self.acc = acc or {}
         self.resume = resume            # dict(ctrl=(sid, secret_name)|None, acc=(sid, secret_name)|None, new_sid=bytes)
         self.m2, self.m4 = list(m2), list(m4)
@@ -240,14 +245,19 @@ class Peer:
         self.s, self.ctrl_name = s, ctrl_name
         self.U = U = U or Universe("c01")
         acc_id, ios_id = IDS[s.cfg]
+        r = dict(acc_id=acc_id, ltsk=ACC_LTSK, ios_id=ios_id, ios_ltsk=CTRL_LTSK)
+        r.update(s.record)
+        self.record = r
+        acc_id, ios_id = r["acc_id"], r["ios_id"]
         self.acc_id, self.ios_id = acc_id, ios_id
         self.ctx = ctx = Ctx()
         ctx.U = U
-        self.stored_ltpk = U.edpub(ACC_LTSK)
+        self.stored_ltpk = U.edpub(r["ltsk"])
         self.pd = {"AccessoryPairingID": acc_id.decode(), "AccessoryLTPK": self.stored_ltpk.b.hex(),
-                   "iOSPairingId": ios_id.decode(), "iOSDeviceLTSK": U.edsk(CTRL_LTSK).hex(),
-                   "iOSDeviceLTPK": U.edpub(CTRL_LTSK).b.hex()}
-        a = dict(acc_id=acc_id, ltsk=ACC_LTSK, eph=ACC_EPH, ctrl_id=ios_id, ctrl_ltsk=CTRL_LTSK)
+                   "iOSPairingId": ios_id.decode(), "iOSDeviceLTSK": U.edsk(r["ios_ltsk"]).hex(),
+                   "iOSDeviceLTPK": U.edpub(r["ios_ltsk"]).b.hex()}
+        # by default the accessory is the one the record describes and knows the record's controller
+        a = dict(acc_id=acc_id, ltsk=r["ltsk"], eph=ACC_EPH, ctrl_id=ios_id, ctrl_ltsk=r["ios_ltsk"])
         a.update(s.acc)
         self.a = a
         self.session = self.new_sid = self.rs_ctrl = None
@@ -413,7 +423,7 @@ def run_scenario(s: Scn, glue=None):
         ss_sec = msg(session[1]) if session else "-"
         hx = lambda x: x.hex() if x else "-"  # noqa: E731
         rec["model_req"] = " ".join([
-            "pv", s.transport, hx(peer.acc_id), msg(peer.stored_ltpk), hx(peer.ios_id), str(CTRL_LTSK), str(CTRL_EPH),
+            "pv", s.transport, hx(peer.acc_id), msg(peer.stored_ltpk), hx(peer.ios_id), str(peer.record["ios_ltsk"]), str(CTRL_EPH),
             rs_sid, rs_sec,
             hx(a["acc_id"]), str(a["ltsk"]), str(a["eph"]), hx(a["ctrl_id"]), msg(U.edpub(a["ctrl_ltsk"])),
             ss_sid, ss_sec, msg(new_sid if new_sid is not None else lit(b"\x09" * 8)),
@@ -455,6 +465,38 @@ def gen_scenarios(tier, rnd):
         S.append(Scn("acc:other-eph", tr, acc=dict(eph=OTHER_ACC_EPH), honest=True))
         S.append(Scn("acc:controller-unknown", tr, acc=dict(ctrl_ltsk=OTHER_LTSK)))
         S.append(Scn("acc:controller-other-id", tr, acc=dict(ctrl_id=b"someone-else")))
+    # ---- record sequences: several exchanges of ONE process with different pairing records; each exchange is judged
+    #      against ITS OWN record (the model and the oracle are history-free - any state the implementation keeps
+    #      between exchanges shows up as a disagreement on a later step)
+    for tr in TRANSPORTS:
+        def seq(name, steps):
+            for i, (label, record, accd, honest) in enumerate(steps):
+                S.append(Scn("record-sequence:" + name, tr, 0, acc=accd, record=record, honest=honest,
+                             seq=(f"{name}:{tr}", i), detail=f"step{i}:{label}"))
+        ida, idb = f"5E:0A:{tr}".encode(), f"5E:0B:{tr}".encode()
+        R1, R2 = dict(acc_id=ida, ltsk=ACC_LTSK), dict(acc_id=ida, ltsk=ACC_LTSK2)
+        seq("same-id-new-ltpk", [("R1-honest", R1, {}, True), ("R2-honest", R2, {}, True),
+                                 ("R2-peer-holds-old-ltsk", R2, dict(ltsk=ACC_LTSK), False),
+                                 ("R1-honest-again", R1, {}, True), ("R1-peer-holds-R2-ltsk", R1, dict(ltsk=ACC_LTSK2), False)])
+        R1, R2 = dict(acc_id=idb, ltsk=ACC_LTSK2), dict(acc_id=idb, ltsk=ACC_LTSK)
+        seq("same-id-new-ltpk:reverse", [("R1-peer-holds-R2-ltsk", R1, dict(ltsk=ACC_LTSK), False), ("R1-honest", R1, {}, True),
+                                         ("R2-peer-holds-old-ltsk", R2, dict(ltsk=ACC_LTSK2), False), ("R2-honest", R2, {}, True)])
+        idc, idd = f"5E:0C:{tr}".encode(), f"5E:0D:{tr}".encode()
+        R1, R2 = dict(acc_id=idc, ltsk=ACC_LTSK), dict(acc_id=idd, ltsk=ACC_LTSK)
+        seq("same-ltpk-new-id", [("R1-honest", R1, {}, True), ("R2-honest", R2, {}, True),
+                                 ("R2-peer-names-old-id", R2, dict(acc_id=idc), False),
+                                 ("R1-peer-names-R2-id", R1, dict(acc_id=idd), False), ("R1-honest-again", R1, {}, True)])
+        ide, idf = f"5E:0E:{tr}".encode(), f"5E:0F:{tr}".encode()
+        ios = f"controller-{tr}".encode()
+        R1 = dict(acc_id=ide, ltsk=ACC_LTSK, ios_id=ios, ios_ltsk=CTRL_LTSK)
+        R2 = dict(acc_id=idf, ltsk=ACC_LTSK2, ios_id=ios, ios_ltsk=CTRL_LTSK)
+        R3 = dict(acc_id=idf, ltsk=ACC_LTSK2, ios_id=ios, ios_ltsk=CTRL_LTSK2)      # controller identity re-keyed
+        seq("same-ios-identity", [("R1-honest", R1, {}, True), ("R2-honest", R2, {}, True),
+                                  ("R2-accessory-of-R1-answers", R2, dict(acc_id=ide, ltsk=ACC_LTSK), False),
+                                  ("R1-accessory-of-R2-answers", R1, dict(acc_id=idf, ltsk=ACC_LTSK2), False),
+                                  ("R3-rekeyed-controller-honest", R3, {}, True),
+                                  ("R3-accessory-knows-old-controller-key", R3, dict(ctrl_ltsk=CTRL_LTSK), False),
+                                  ("R1-honest-again", R1, {}, True)])
     for tr in TRANSPORTS:
         # replies recorded in an EARLIER real exchange of the same process (ephemeral keys as the implementation
         # chooses them, no seam) replayed verbatim into a second exchange: pv_replayed_exchange_fails
@@ -911,6 +953,9 @@ def glue_pass(scns, recs):
 # ------------------------------------------------------------------ run
 def replay_payload(s, rec, model=None, extra=None):
     p = dict(scenario=s.ident(), transport=s.transport, pairing_data=rec["pd"], controller_eph_sk=rec["eph_sk"],
+             sequence=(dict(name=s.seq[0], position=s.seq[1], earlier_exchanges_in_this_process=rec.get("seq_history"),
+                            note="exchanges of this sequence run back to back in one process with DIFFERENT pairing records; "
+                                 "--replay re-runs the sequence up to this step") if s.seq else None),
              prior_exchange=rec.get("prior"), key_reused=rec.get("key_reused"),
              m1=rec["m1"].hex() if rec["m1"] else None, m2=rec["m2"].hex() if rec["m2"] is not None else None,
              m3=rec["m3"].hex() if rec["m3"] else None, m4=rec["m4"].hex() if rec["m4"] is not None else None,
@@ -959,8 +1004,20 @@ def run(ctx):
         if not scns:
             return dict(coverage=dict(evaluations=0, distinct_nontrivial=0, rule="replay", samples=[]),
                         violations=[violation("replay:unknown-scenario", f"no scenario named {want}", False)])
-        scns = scns[:1]
+        first = scns[0]
+        if first.seq:
+            pool = gen_scenarios(tier, rng(ctx["seed"], "c01"))
+            scns = [s for s in pool if s.seq and s.seq[0] == first.seq[0] and s.seq[1] <= first.seq[1]]
+        else:
+            scns = scns[:1]
     recs = [run_scenario(s) for s in scns]
+    hist = {}
+    for s_, r_ in zip(scns, recs):        # earlier steps of a record sequence, for self-contained replays
+        if s_.seq:
+            h = hist.setdefault(s_.seq[0], [])
+            r_["seq_history"] = list(h)
+            h.append(dict(step=s_.detail, pairing_data=r_["pd"], m1=r_["m1"].hex(), m2=r_["m2"].hex(),
+                          m3=r_["m3"].hex() if r_["m3"] else None, m4=r_["m4"].hex() if r_["m4"] else None, impl=r_["impl"]))
     lines = [r["model_req"] for r in recs if r["model_req"]]
     answers = iter(drv.batch(lines))
     n_model = 0
@@ -1010,7 +1067,7 @@ def run(ctx):
                    "M2/M4 recorded from an earlier exchange were replayed verbatim, with nobody holding the accessory's "
                    "long-term key taking part, and the implementation returned session keys")
         elif impl_done and not just:
-            bad = ("accepted-unauthentic:" + str(rec["why_not"]) + ":" + s.transport,
+            bad = ("accepted-unauthentic:" + str(rec["why_not"]) + ":" + s.transport + (":" + s.family if s.seq else ""),
                    "the implementation returned session keys although the delivered replies fail the C01 acceptance "
                    f"condition, evaluated independently on the bytes (reason: {rec['why_not']})")
         elif s.honest and not s.m2 and not s.m4 and not (impl_done and " keys=1" in impl and " m3acc=0" not in impl):
